@@ -1,6 +1,6 @@
 SPECIFICATION Spec
-CONSTANTS Kx = 2
-          Ky = 2
+CONSTANTS Kx = 1
+          Ky = 3
           N = 2
           W = 2
 INVARIANT Recip
